@@ -3,7 +3,8 @@
    clear_connection() including their sweeps.  Sessions are independent when they have different
    ids, different live connections and different DB-API connections.  Steps are atomic session
    calls in one thread; pre-emption inside a listener is outside the property's step notion. *)
-From Continuum Require Import Model.Base Model.VTable Model.Core Model.Manager Proofs.ManagerP.
+From Continuum Require Import Model.Base Model.VTable Model.Core Model.Manager Proofs.ManagerP
+     Gen.ManagerGen Proofs.ManagerGenP.
 
 (* locality: a step of another session does not change anything this session can see (its unit of
    work, its map entry, its database) *)
@@ -48,6 +49,34 @@ Theorem C09_each_session_is_a_core_run : forall dbapi closed conn_of,
   core_of (grun dbapi closed g sched) (ss_conn s) = run g (map snd (filter (mine s) sched)).
 Proof. exact interleaved_session_is_core_run. Qed.
 
+(* The map functions of the model ARE the code: Gen/ManagerGen.v is regenerated from the current
+   sqlalchemy_continuum/manager.py on every build (harness/pytrans.py); the generated functions equal
+   the model's register / clear / clear_connection / clone_track.  (U, M) = (units_of_work,
+   session_connection_map); the maps are Python dicts, i.e. have unique keys, in every reachable state. *)
+Theorem C09_unit_of_work_is_the_code : forall G s,
+  gen_unit_of_work (g_uows G) (g_smap G) (ss_id s) (ss_conn s) = (g_uows (register G s), g_smap (register G s)).
+Proof. exact gen_unit_of_work_is_register. Qed.
+
+Theorem C09_clear_is_the_code : forall dbapi closed G s,
+  gen_clear dbapi closed false (g_uows G) (g_smap G) (ss_id s) =
+  (g_uows (clear dbapi closed G s), g_smap (clear dbapi closed G s)).
+Proof. exact gen_clear_is_clear. Qed.
+
+Theorem C09_clear_connection_is_the_code : forall dbapi closed G c,
+  NoDup (map fst (g_smap G)) ->
+  gen_clear_connection dbapi closed (g_uows G) (g_smap G) c =
+  (g_uows (clear_connection dbapi closed G c), g_smap (clear_connection dbapi closed G c)).
+Proof. exact gen_clear_connection_is_clear_connection. Qed.
+
+Theorem C09_track_cloned_connections_is_the_code : forall dbapi closed G c,
+  gen_track_cloned_connections dbapi closed (g_uows G) (g_smap G) c =
+  (g_uows (clone_track dbapi closed G c), g_smap (clone_track dbapi closed G c)).
+Proof. exact gen_track_cloned_connections_is_clone_track. Qed.
+
+Theorem C09_maps_stay_dictionaries : forall dbapi closed g sched,
+  NoDup (map fst (g_smap (grun2 dbapi closed g sched))).
+Proof. exact reachable_dict_shape. Qed.
+
 (* quiescence: after its rollback a session has neither a unit of work nor a map entry; after its
    commit likewise (it was registered by its first flush) *)
 Theorem C09_quiescent_after_rollback : forall dbapi closed conn_of,
@@ -82,3 +111,8 @@ Print Assumptions C09_example.
 Print Assumptions C09_interleaving_with_execution_options.
 Print Assumptions C09_execution_options_adopt_nothing.
 Print Assumptions C09_each_session_is_a_core_run.
+Print Assumptions C09_unit_of_work_is_the_code.
+Print Assumptions C09_clear_is_the_code.
+Print Assumptions C09_clear_connection_is_the_code.
+Print Assumptions C09_track_cloned_connections_is_the_code.
+Print Assumptions C09_maps_stay_dictionaries.
